@@ -53,7 +53,7 @@ func C03(tier string) {
 	r.Assume("published chromaticities: IEC 61966-2-1, Adobe RGB (1998), ISO 22028-2, DCI-P3 D65 (Display P3); 5e-5 tolerance for 4-decimal publication")
 	steps := 64
 	if tier == "thorough" {
-		steps = 256
+		steps = 1024
 	}
 	r.Rule(fmt.Sprintf("per space: 9+9 coefficients recovered by probing unit vectors; declared vs published chromaticities; uniform lattice {0..%d}^3/%d and geometric lattice G^3 (|G|=%d: 0, +/-2^-k, +/-1.5*2^-k, +/-(1+/-2^-k), k<=24) for additivity and both round trips; distinct = lattice points with at least two non-zero components", steps-1, steps-1, len(geoAxis())))
 
